@@ -171,6 +171,22 @@ pub fn cuts_stage(rep: &mut Report, env: &AppEnv, stage: &str, pls: &[Vec<u8>], 
     });
 }
 
+/// Long connections: `n` messages (cycled from `msgs`) on one TCP connection, every one judged
+/// by the reference stream model (counters, buffers and per-connection state must not wear out).
+pub fn long_conv_stage(rep: &mut Report, env: &AppEnv, stage: &str, first: Option<Vec<u8>>, msgs: &[Vec<u8>], n: usize) {
+    let space = format!("{} messages (cycling through {} shapes) on one TCP connection x {{v4,v6}}", n, msgs.len());
+    sweep_conv(rep, env, stage, &space, 2, |i| {
+        let mut v: Vec<Vec<u8>> = Vec::new();
+        if let Some(f) = &first {
+            v.push(f.clone());
+        }
+        for k in 0..n {
+            v.push(msgs[k % msgs.len()].clone());
+        }
+        (Path { tcp: true, v6: i == 1, ports: i as usize }, v)
+    });
+}
+
 /// Two-byte neighbourhood (thorough tiers): every adjacent byte pair of each base message set to
 /// all 65536 values, over the given paths; judged by the reference model like every other sweep.
 pub fn pair_faults_stage(rep: &mut Report, env: &AppEnv, stage: &str, bases: &[Vec<u8>], paths: &[Path]) {
@@ -384,6 +400,8 @@ pub fn run_c13(rep: &mut Report, thorough: bool) {
             let sel: Vec<Vec<u8>> = (0..nc).map(|k| core[k * st + (k % st.max(1))].clone()).collect();
             cuts_stage(rep, &env, &format!("http-cuts-{}", tag), &sel, 16);
         }
+        crate::props::pairs::pair_histories(rep, &env.cfg, &format!("http-pair-histories-{}", tag), &crate::props::pairs::datagram_variants("http", &[b"GET /a HTTP/1.1\r\nHost: x\r\n\r\n".to_vec(), b"POST / HTTP/1.0\n\n".to_vec(), b"HEAD /h HTTP/1.1\r\nA:b\r\nC: d\r\n\r\n".to_vec()]));
+        long_conv_stage(rep, &env, &format!("http-long-connection-{}", tag), None, &core[..24.min(core.len())], if thorough { 1500 } else { 300 });
         // keep-alive: a second and third complete request on a connection whose earlier requests
         // were answered
         {
@@ -501,6 +519,7 @@ pub fn run_c14(rep: &mut Report, thorough: bool) {
             let k = offs.partition_point(|o| *o <= i) - 1;
             (p4, msgs[k][..(i - offs[k]) as usize].to_vec())
         });
+        crate::props::pairs::pair_histories(rep, &env.cfg, &format!("dns-pair-histories-{}", tag), &crate::props::pairs::datagram_variants("dns", &[appdns::build_query(5, 0x0100, &q1), appdns::build_query(6, 0, &[(dns_labels("a.b"), 1, 1), (dns_labels("c"), 1, 1)]), appdns::build_query(7, 0x0100, &[(dns_labels("version.bind"), 16, 3)])]));
         // destination addresses
         let t0 = std::time::Instant::now();
         let dsts: Vec<Ip> = vec![srv4(), srv4b(), Ip::V4([0, 0, 0, 0]), Ip::V4([255, 255, 255, 255]), Ip::V4([224, 0, 0, 251]), Ip::V4([1, 2, 3, 4])];
@@ -787,6 +806,7 @@ pub fn run_c15(rep: &mut Report, thorough: bool) {
             &mut rep.sink,
         );
         rep.stage(&format!("stun-src-{}", tag), "4 source addresses per IP version (incl. IPv4-mapped and IPv4-compatible IPv6) x 3 request shapes", 24, t0);
+        crate::props::pairs::pair_histories(rep, &env.cfg, &format!("stun-pair-histories-{}", tag), &crate::props::pairs::datagram_variants("stun", &[stun_magic(&[], &ID12), stun_classic(&stun_attr(3, &[0, 0, 0, 2]), &ID16), stun_magic(&stun_attr(0x8022, &[b'x'; 256]), &ID12)]));
         // bytes after the message the STUN length field delimits are not attributes of the request
         {
             let big_attr = stun_attr(0x8022, &[b'x'; 252]);
@@ -809,6 +829,30 @@ pub fn run_c15(rep: &mut Report, thorough: bool) {
                 (Path { tcp: true, v6: d[2] == 1, ports: 1 }, vec![big.clone(), m])
             });
         }
+        // attribute count: k unknown attributes before a CHANGE-REQUEST, k = 0..120
+        {
+            let big = stun_magic(&stun_attr(0x8022, &[b'x'; 256]), &ID12);
+            let msg = |k: u64, tail: u64| -> Vec<u8> {
+                let mut body = Vec::new();
+                for j in 0..k {
+                    body.extend(stun_attr(0x8022, &[b'a' + (j % 26) as u8; 4]));
+                }
+                match tail {
+                    0 => body.extend(stun_attr(3, &[0, 0, 0, 2])),
+                    1 => body.extend(stun_attr(3, &[0, 0, 0, 0])),
+                    _ => {}
+                }
+                stun_magic(&body, &ID12)
+            };
+            sweep_app(rep, &env, &format!("stun-attr-count-{}", tag), "k unknown attributes (k = 31..120: the forms the datagram matcher identifies) then {CHANGE-REQUEST change-port, CHANGE-REQUEST without, nothing} x {UDP v4, UDP v6, TCP}", 90 * 3 * 3, |i| {
+                let d = unrank(i, &[90, 3, 3]);
+                ([pu4, pu6, pt4][d[2] as usize], msg(31 + d[0], d[1]))
+            });
+            sweep_conv(rep, &env, &format!("stun-attr-count-second-{}", tag), "[>=256-byte request] then a request with k = 0..120 unknown attributes then {CHANGE-REQUEST change-port, without, nothing} on one TCP connection", 121 * 3, |i| {
+                let d = unrank(i, &[121, 3]);
+                (Path { tcp: true, v6: i % 2 == 1, ports: 1 }, vec![big.clone(), msg(d[0], d[1])])
+            });
+        }
         // later messages on a TCP connection identified as STUN: every message-type word
         {
             let big = stun_magic(&stun_attr(0x8022, &[b'x'; 256]), &ID12);
@@ -821,6 +865,8 @@ pub fn run_c15(rep: &mut Report, thorough: bool) {
                 (Path { tcp: true, v6: false, ports: 1 }, vec![big.clone(), m])
             });
             cuts_stage(rep, &env, &format!("stun-cuts-{}", tag), &[big.clone()], 28);
+            let msgs = vec![stun_magic(&[], &ID12), stun_magic(&stun_attr(3, &[0, 0, 0, 2]), &ID12), stun_classic(&[], &ID16), stun_magic(&stun_attr(0x8022, b"abcd"), &ID12)];
+            long_conv_stage(rep, &env, &format!("stun-long-connection-{}", tag), Some(big.clone()), &msgs, if thorough { 1500 } else { 300 });
         }
         if thorough {
             let bases: Vec<Vec<u8>> = vec![stun_magic(&[], &ID12), stun_classic(&stun_attr(3, &[0, 0, 0, 2]), &ID16), stun_magic(&[stun_attr(0x8022, b"abcd"), stun_attr(3, &[0, 0, 0, 2])].concat(), &ID12)];
@@ -889,6 +935,7 @@ pub fn run_c16(rep: &mut Report, thorough: bool) {
             let pls = vec![mk(pt, 0x61626364, 100000, 2, 3, &[], &[]), mk(pt, 0x61626364, 100000, 4, 4, &[], &[]), mk(pt, 0x01020304, 100003, 3, 0, &[], &[]), mk(pt, 0x61626364, 100000, 2, 0, &[0; 8], &[])];
             cuts_stage(rep, &env, &format!("rpc-cuts-{}", tag), &pls, 12);
         }
+        crate::props::pairs::pair_histories(rep, &env.cfg, &format!("rpc-pair-histories-{}", tag), &crate::props::pairs::datagram_variants("rpc", &[apprpc::build_call(0x61626364, 2, 100000, 2, 3, &[], &[]), apprpc::build_call(0x61626364, 2, 100000, 4, 4, &[1, 2, 3, 4], &[]), apprpc::build_call(0x01020304, 2, 100003, 3, 0, &[], &[])]));
         // XID bytes
         let dims = [4u64, 4, 256];
         sweep_app(rep, &env, &format!("rpc-xid-{}", tag), "XID: every byte position x 256 values x 4 paths (GETPORT v2)", product(&dims), |i| {
@@ -1137,6 +1184,7 @@ pub fn run_c17(rep: &mut Report, thorough: bool) {
             let m = if d[1] == 0 { appsmb::smb2_negotiate(&h, &[0x0210, 0x0202], &[3; 16]) } else { appsmb::smb2_session_setup(&h, &[1, 2, 3, 4]) };
             (two[d[0] as usize], m)
         });
+        crate::props::pairs::pair_histories(rep, &env.cfg, &format!("smb-pair-histories-{}", tag), &crate::props::pairs::datagram_variants("smb", &[appsmb::smb1_negotiate(&Smb1Hdr::new(0x72), &["NT LM 0.12"]), appsmb::smb2_negotiate(&Smb2Hdr::new(0), &[0x0202, 0x0311], &[5; 16]), appsmb::smb2_session_setup(&Smb2Hdr::new(1), &[7; 8]), appsmb::smb1_session_setup(&Smb1Hdr::new(0x73), &[1, 2, 3, 4])]));
         // correlation fields are echoed whatever the other header fields say: ids x flag words
         let flagv: Vec<u32> = std::iter::once(0u32).chain((1..32).map(|b| 1u32 << b)).chain([6u32, 0xfffffffe]).collect();
         let dims = [2u64, 2, flagv.len() as u64, 3];
@@ -1156,6 +1204,8 @@ pub fn run_c17(rep: &mut Report, thorough: bool) {
         {
             let pls = vec![appsmb::smb1_negotiate(&Smb1Hdr::new(0x72), &["NT LM 0.12"]), appsmb::smb2_negotiate(&Smb2Hdr::new(0), &[0x0202, 0x0311], &[5; 16]), appsmb::smb2_session_setup(&Smb2Hdr::new(1), &[7; 8])];
             cuts_stage(rep, &env, &format!("smb-cuts-{}", tag), &pls, 12);
+            long_conv_stage(rep, &env, &format!("smb1-long-connection-{}", tag), None, &[appsmb::smb1_negotiate(&Smb1Hdr::new(0x72), &["NT LM 0.12"]), appsmb::smb1_session_setup(&Smb1Hdr::new(0x73), &[7; 8])], if thorough { 1500 } else { 300 });
+            long_conv_stage(rep, &env, &format!("smb2-long-connection-{}", tag), None, &[pls[1].clone(), pls[2].clone(), appsmb::smb2_negotiate(&Smb2Hdr::new(0), &[0x0311, 0x0311, 0x0202], &[6; 16])], if thorough { 1500 } else { 300 });
         }
         let dims = [2u64, 2, 65536];
         sweep_app(rep, &env, &format!("smb2-cmd-flags-{}", tag), "command 0..65535 x response flag x {UDP, TCP}", product(&dims), |i| {
@@ -1398,6 +1448,7 @@ pub fn run_c18(rep: &mut Report, thorough: bool) {
             };
             (if d[2] == 0 { pu } else { pt }, m)
         });
+        crate::props::pairs::pair_histories(rep, &env.cfg, &format!("ssh-pair-histories-{}", tag), &crate::props::pairs::datagram_variants("ssh", &[b"SSH-2.0-OpenSSH_8.9 x\r\n".to_vec(), b"SSH-1.99-a\r\n".to_vec(), ghost_request()]));
         // later segments on a connection identified as SSH are identification strings of their own
         {
             let firsts: [&[u8]; 2] = [b"SSH-2.0-first\r\n", b"SSH-1.99-first c\r\n"];
@@ -1417,6 +1468,8 @@ pub fn run_c18(rep: &mut Report, thorough: bool) {
             let mut pls: Vec<Vec<u8>> = banners.iter().map(|b| b.to_vec()).collect();
             pls.push(ghost_request());
             cuts_stage(rep, &env, &format!("ssh-ghost-cuts-{}", tag), &pls, 12);
+            long_conv_stage(rep, &env, &format!("ssh-long-connection-{}", tag), None, &[b"SSH-2.0-a\r\n".to_vec(), b"SSH-1.99-b c\r\n".to_vec()], if thorough { 1500 } else { 300 });
+            long_conv_stage(rep, &env, &format!("ghost-long-connection-{}", tag), None, &[ghost_request()], if thorough { 300 } else { 60 });
         }
         let gt = 1 + 9 + 81 + 729;
         sweep_app(rep, &env, &format!("ghost-tails-{}", tag), "Gh0st magic + every tail of length <= 3 over 9 symbols, the captured request, tails of 1/2/4 KB, x {UDP v4, TCP v6, UDP v6, TCP v4}", (gt + 4) * 4, |i| {
